@@ -147,3 +147,73 @@ pub proof fn lemma_transfer_event(e: Event, to: Seq<char>, sender: Addr, amount:
     assert forall|i: int| 0 <= i < 3 implies e.attributes@[i] == want[i] by { }
     assert(e.attributes@ =~= want);
 }
+
+// ---- bank queries (the same source function as Module::query above, read as an inherent method so that it can carry
+// a precondition; arms for denomination metadata are sliced away under that precondition)
+pub open spec fn bw(s: St) -> St { window(s, lp(ns_bank())) }
+// the coin a Balance query reports: the first entry of that denomination, else a zero coin
+pub open spec fn balance_coin(v: Seq<Coin>, d: Seq<char>, c: Coin) -> bool {
+    ||| exists|i: int| 0 <= i < v.len() && #[trigger] v[i] == c && c.denom@ == d && forall|j: int| 0 <= j < i ==> (#[trigger] v[j]).denom@ != d
+    ||| (forall|j: int| 0 <= j < v.len() ==> (#[trigger] v[j]).denom@ != d) && c.amount.u == 0 && c.denom@ == d
+}
+// `v.into_iter().find(p)` (rule D10, by the std definition of find): the first element satisfying p
+#[verifier::external_body]
+pub fn vec_find<T, P: FnMut(&T) -> bool>(v: Vec<T>, p: P) -> (r: Option<T>)
+    requires forall|i: int| 0 <= i < v@.len() ==> #[trigger] p.requires((&v@[i],))
+    ensures match r {
+        Some(x) => exists|i: int| 0 <= i < v@.len() && #[trigger] v@[i] == x && p.ensures((&v@[i],), true) && forall|j: int| 0 <= j < i ==> p.ensures((&#[trigger] v@[j],), false),
+        None => forall|j: int| 0 <= j < v@.len() ==> p.ensures((&#[trigger] v@[j],), false),
+    }
+{ v.into_iter().find(p) }
+// when every denomination occurs at most once (a normalised balance), the reported coin carries that denomination's total
+pub open spec fn denoms_unique(v: Seq<Coin>) -> bool { forall|i: int, j: int| 0 <= i < j < v.len() ==> (#[trigger] v[i]).denom@ != (#[trigger] v[j]).denom@ }
+pub proof fn lemma_amt_unique(v: Seq<Coin>, d: Seq<char>)
+    requires denoms_unique(v)
+    ensures
+        forall|i: int| 0 <= i < v.len() && (#[trigger] v[i]).denom@ == d ==> amt(v, d) == v[i].amount.u,
+        (forall|j: int| 0 <= j < v.len() ==> (#[trigger] v[j]).denom@ != d) ==> amt(v, d) == 0,
+    decreases v.len()
+{
+    if v.len() > 0 {
+        let w = v.drop_last();
+        assert(denoms_unique(w)) by { assert forall|i: int, j: int| 0 <= i < j < w.len() implies (#[trigger] w[i]).denom@ != (#[trigger] w[j]).denom@ by { assert(v[i].denom@ != v[j].denom@); } }
+        lemma_amt_unique(w, d);
+        assert forall|i: int| 0 <= i < v.len() && (#[trigger] v[i]).denom@ == d implies amt(v, d) == v[i].amount.u by {
+            if i == v.len() - 1 {
+                assert forall|j: int| 0 <= j < w.len() implies (#[trigger] w[j]).denom@ != d by { assert(v[j].denom@ != v[i].denom@); }
+            } else {
+                assert(w[i].denom@ == d);
+                assert(v[i].denom@ != v[v.len() - 1].denom@);
+            }
+        }
+        if forall|j: int| 0 <= j < v.len() ==> (#[trigger] v[j]).denom@ != d {
+            assert forall|j: int| 0 <= j < w.len() implies (#[trigger] w[j]).denom@ != d by { assert(v[j].denom@ != d); }
+        }
+    }
+}
+pub proof fn lemma_balance_agrees(v: Seq<Coin>, d: Seq<char>, c: Coin)
+    requires denoms_unique(v), balance_coin(v, d, c)
+    ensures /*VXCLAUSE C09.lemma.balance_agrees*/ (c.amount.u == amt(v, d) && c.denom@ == d)
+{
+    lemma_amt_unique(v, d);
+}
+
+//@ impl_open src/bank.rs :: Module for BankKeeper
+//@   replace "impl Module for BankKeeper" => "impl BankKeeper"
+//@ end
+//@ fn src/bank.rs :: Module for BankKeeper :: query
+//@   ret r
+//@   slice_match request keep AllBalances|Balance|Supply
+//@   replace* ".map_err(Into::into)" => ""
+//@   replace_re "to_json_binary\\(&res\\)" => "std_to_any(to_json_binary(&res))"
+//@   replace_re? "all_amounts\\s*\\.into_iter\\(\\)\\s*\\.find\\(\\|c\\| c\\.denom == denom\\)" => "vec_find(all_amounts, |c: &Coin| -> (b: bool) ensures b == (c.denom@ == denom@) { c.denom == denom })"
+//@   replace_re? "\\.unwrap_or_else\\(\\|\\| coin\\(0, denom\\)\\)" => ".unwrap_or_else(|| -> (c0: Coin) ensures c0.amount.u == 0 && c0.denom@ == denom@ { coin(0, denom) })"
+//@   requires [C09.query.pre_kind] request is AllBalances || request is Balance || request is Supply
+//@   ensures [C09.query.all_balances] match request { BankQuery::AllBalances { address } => (r matches Ok(b) ==> exists|a: Addr, v: Vec<Coin>| a.s@ == address@ && ledger(bw(storage.view()), a) == Ok::<Seq<Coin>, AnyError>(v@) && b == spec_json(AllBalanceResponse { amount: v })), _ => true }
+//@   after "re:^\\s*let res = AllBalanceResponse::new\\(amount\\);\\s*$" proof { assert(ledger(bw(storage.view()), address) == Ok::<Seq<Coin>, AnyError>(res.amount@)); }
+//@   after "re:^\\s*let res = BalanceResponse::new\\(amount\\);\\s*$" proof { assert(balance_coin(vx_all, denom0, res.amount)); }
+//@   before "re:^\\s*let amount = (/\\*VXOPT \\d+\\*/)?(vec_find\\()?all_amounts" let ghost vx_all = all_amounts@; let ghost denom0 = denom@;
+//@   ensures [C09.query.balance] match request { BankQuery::Balance { address, denom } => (r matches Ok(b) ==> exists|a: Addr, v: Seq<Coin>, c: Coin| a.s@ == address@ && ledger(bw(storage.view()), a) == Ok::<Seq<Coin>, AnyError>(v) && balance_coin(v, denom@, c) && b == spec_json(BalanceResponse { amount: c })), _ => true }
+//@   ensures [C09.query.supply] match request { BankQuery::Supply { denom } => (r matches Ok(b) ==> exists|c: Coin, recs: Seq<RecV>, vals: Seq<Seq<Coin>>| b == spec_json(SupplyResponse { amount: c }) && c.denom@ == denom@ && is_range_of(recs, window(bw(storage.view()), lp(ns_balances())), None, None, Order::Ascending) && vals.len() == recs.len() && (forall|i: int| 0 <= i < recs.len() ==> (NativeBalance::de((#[trigger] recs[i]).1) matches Ok(nb) && nb.0@ == vals[i])) && (supply_sum(vals, denom@) <= u128::MAX ==> c.amount.u == supply_sum(vals, denom@))), _ => true }
+//@ end
+}
